@@ -119,7 +119,7 @@ func (c *Ctx) flush() error {
 			}
 			sb.WriteString("].\n")
 			fmt.Fprintf(&sb, "Definition verdicts := Eval vm_compute in verdict_string %s cases.\nPrint verdicts.\n", g.Judge)
-			name := filepath.Join(c.outDir, fmt.Sprintf("cases_%03d.v", nshards))
+			name := filepath.Join(c.outDir, fmt.Sprintf("cases_%05d.v", nshards))
 			if err := os.WriteFile(name, []byte(sb.String()), 0o644); err != nil {
 				return err
 			}
